@@ -113,7 +113,16 @@ ClashXsd == [name |-> "clash.xsd", kind |-> "xsd", tns |-> "Urich", xmlns |-> <<
                                         [k |-> "attr", n |-> "lang", ty |-> Str, use |-> "opt"] >>],
                           [k |-> "complex", n |-> "ClashDerived", base |-> [k |-> "named", p |-> "t", n |-> "ClashBase"],
                            content |-> <<>>, attrs |-> << [k |-> "attr", n |-> "Lang", ty |-> Str, use |-> "opt"], [k |-> "attr", n |-> "iD", ty |-> Str, use |-> "opt"] >>] >>]
-Bases == << [label |-> "name-clash", start |-> "clash.xsd", files |-> <<ClashXsd>>, mutable |-> TRUE, feat |-> {}],
+\* error messages about components with long non-ASCII names (the message quotes the node): a simple type whose
+\* restriction has no base, with 0..7 ASCII characters in front of a long Cyrillic name (every byte offset modulo the width
+\* of a character occurs), and an element without a name
+Pad == <<"", "a", "ab", "abc", "abcd", "abcde", "abcdef", "abcdefg">>
+Cyr == "жжжжжжжжжжжжжжжжжжжжжжжжжжжжжжжжжжжжжжжжжжжжжжжжжжжжжжжжжжжжжжжжжжжжжжжжжжжжжжжжжжжжжжжжжжжжжжжжжжжжжжжжжжжжжжжжжжжжжжжжжжжж"
+NonAsciiXsd == [name |-> "nonascii.xsd", kind |-> "xsd", tns |-> "Urich", xmlns |-> << <<"t", "Urich">> >>,
+                items |-> [i \in 1..8 |-> [k |-> "rawxml", xml |-> "  <xs:simpleType name=\"" \o Pad[i] \o Cyr \o "\"><xs:restriction><xs:simpleType><xs:restriction base=\"xs:string\"/></xs:simpleType></xs:restriction></xs:simpleType>"]]
+                          \o [i \in 1..8 |-> [k |-> "rawxml", xml |-> "  <xs:complexType name=\"T" \o ToString(i) \o "\"><xs:sequence><xs:element type=\"xs:string\" id=\"" \o Pad[i] \o Cyr \o "\"/></xs:sequence></xs:complexType>"]]]
+Bases == << [label |-> "nonascii-errors", start |-> "nonascii.xsd", files |-> <<NonAsciiXsd>>, mutable |-> FALSE, feat |-> {}],
+            [label |-> "name-clash", start |-> "clash.xsd", files |-> <<ClashXsd>>, mutable |-> TRUE, feat |-> {}],
             [label |-> "ext-chain", start |-> "chain.xsd", files |-> <<ExtChainXsd(ChainN)>>, mutable |-> FALSE, feat |-> {"ref_ladder"}],
             [label |-> "rich-xsd", start |-> "rich.xsd", files |-> <<RichXsd, OtherXsd>>, mutable |-> TRUE, feat |-> {}],
             [label |-> "wsdl", start |-> "svc.wsdl", files |-> <<SvcWsdl, OtherXsd>>, mutable |-> TRUE, feat |-> {}],
